@@ -363,6 +363,11 @@ macro_rules! lazy_search {
                 if mixed_path(&r) {
                     nt = true;
                 }
+                let start0 = r.get("v").and_then(|v| v.as_array()).and_then(|a| a.get(0)).and_then(|x| x.as_i64()) == Some(0)
+                    || r.get("aln").and_then(|a| a.get("ystart")).and_then(|x| x.as_i64()) == Some(0);
+                if start0 {
+                    $log.oblige(if $simple { "lazy_hit_starting_at_text_position_0_simple" } else { "lazy_hit_starting_at_text_position_0_long" });
+                }
                 if !is_ok(&r) {
                     dead = true;
                     break;
@@ -1090,6 +1095,56 @@ pub fn drive(log: &mut Log) {
         run_one(log, "gs", seed, c, &Case { p: &wt.p, tb: &none, texts: &texts, objs: &objs, searches: &searches, builder: None });
     }
     case = builder_histories(log, seed, case);
+
+    // (h) chained ambiguity tables that are not transitively closed, both declaration orders, 32
+    //     fresh builders per configuration: every round builds a single-word and a block-based
+    //     matcher from a new builder and searches eagerly / lazily (labels Match / Subst under
+    //     the non-transitive relation)
+    let nch = log.opts.n(8, 32);
+    for i in 0..nch {
+        case += 1;
+        if !log.mine(case) {
+            continue;
+        }
+        let mut rng = Rng::new(seed, 50, case);
+        let m = 3 + rng.below(if i % 2 == 0 { 5 } else { 14 }) as usize;
+        let (tb, p, texts) = chain_config(&mut rng, i, m);
+        let ws = if m <= 8 { 8 } else { 32 };
+        let objs = [Obj { long_impl: false, w: ws }, Obj { long_impl: true, w: 8 }];
+        log.oblige("ambiguity_chain_not_transitively_closed");
+        log.oblige("many_fresh_builders_same_configuration");
+        // text 1 planted at the very start once more: lazy hits starting at text position 0
+        let mut texts = texts;
+        texts[0] = texts[1][..0].iter().cloned().chain(p.iter().map(|&c| if c == b'X' { b'Y' } else if c == b'Y' { b'Z' } else if c == b'W' { b'X' } else { c })).collect();
+        let cfg = json!({
+            "p": bytes(&p), "ambig": tb.ambig_json(), "wild": tb.wild_json(),
+            "texts": Value::Array(texts.iter().map(|t| bytes(t)).collect()),
+            "objs": objs_json(&[(false, ws), (true, 8)]),
+        });
+        if !log.begin("ch", cfg) {
+            continue;
+        }
+        'rounds: for round in 0..33usize {
+            let mut mxs: Vec<Mx> = vec![];
+            for (oi, o) in objs.iter().enumerate() {
+                let mut mx: Option<Mx> = None;
+                log.call("new", json!({"obj": oi + 1, "round": round}), || {
+                    mx = Some(build(o.long_impl, o.w, &p, &tb)); // a fresh builder every time
+                    json!({})
+                });
+                match mx {
+                    Some(mm) => mxs.push(mm),
+                    None => break 'rounds,
+                }
+            }
+            let s = Search { ti: 1 + round % 3, k: (round % 2) as i64, lazy: round % 2 == 0, max_hits: 4, style: (round % 4) as u64, light: true };
+            for oi in 0..2 {
+                if !do_search(log, seed, case, round, &s, &texts[s.ti - 1], &mut mxs[oi], oi + 1, oi == 0) {
+                    break 'rounds;
+                }
+            }
+        }
+    }
 
     // (g) matcher objects as values (run_values), every word type of both implementations
     let nov = log.opts.n(2, 12);
